@@ -891,3 +891,12 @@ Proof.
   destruct H as [Htq Hcq Htqi Hcqi Hcts Htb Htp Hwp Hnd Hlt HQnd HQst Hlen Hrun Hpark Hoth Hscnd Hsc Hsusp Hr Hres Hact Hasl Hinj Htrk Htrkl Hclk Hnsl].
   constructor; try assumption.
 Qed.
+
+Lemma inv_set_cq mx specs s d tr cur ct Q R q' :
+  INV mx specs s d tr cur ct Q R -> QOK q' -> Permutation (all_items q') (map Z.of_nat R) ->
+  INV mx specs (s_cq s q') d tr cur ct Q R.
+Proof.
+  intros H Hq Hp.
+  destruct H as [Htq Hcq Htqi Hcqi Hcts Htb Htp Hwp Hnd Hlt HQnd HQst Hlen Hrun Hpark Hoth Hscnd Hsc Hsusp Hr Hres Hact Hasl Hinj Htrk Htrkl Hclk Hnsl].
+  constructor; try assumption.
+Qed.
